@@ -1,11 +1,11 @@
 #!/bin/bash
 # usage: neutral_round_prep.sh <tag>  -- creates /tmp/mut/N??<tag> worktrees at /repo HEAD and prompts asking independent
 # agents for behaviour-PRESERVING refactorings in the code behind each property (false-alarm probes).
-L=$1
+L=$1; G=${2:-}
 for p in 01 02 03 04 05 06 07 08 09 10 11 12 13 14 15 16 17 18 19 20; do d=/tmp/mut/N${p}$L; [ -d $d ] || git -C /repo worktree add -q --detach $d HEAD; done
-python3 - "$L" <<'PY'
+python3 - "$L" "$G" <<'PY'
 import json,sys
-L=sys.argv[1]
+L=sys.argv[1]; G=sys.argv[2] if len(sys.argv)>2 else ''
 for l in open('/verif/properties.jsonl'):
     d=json.loads(l); pid=d['id']; sid='N'+pid[1:]+L
     body=f"""You are helping evaluate a verification framework for the Go project IrineSistiana/mosproxy (a DNS forwarder/proxy: UDP/TCP/DoT/DoH/DoQ servers and upstreams, its own DNS wire codec, pipelined upstream transports, TTL cache, domain-rule routing).
@@ -16,7 +16,7 @@ Your scratch git worktree of the repository is at /tmp/mut/{sid} (already create
 PROPERTY {pid} (it holds for the unmodified code): {d['title']}
 {d['statement']}
 
-TASK: find the non-test code that makes this property true (read it end to end), then write FIVE independent, small, BEHAVIOUR-PRESERVING refactorings of that code — the kind of clean-up a maintainer would merge without hesitation and that changes nothing observable, on any input, error path or interleaving. Each must touch the code that the property depends on (not unrelated files), and each must be a DIFFERENT kind of edit, for example: rename a local variable, parameter, receiver or unexported field; introduce or inline a local variable; extract a few statements into an unexported helper function/method, or inline a small helper at its call site; turn if/else into early return (or back), a chain of ifs into a switch, `for i := 0; i < n; i++` into `for i := range`, an index loop into a range loop where equivalent; flip a comparison (`a < b` to `b > a`, `!(x == y)` to `x != y`, `> 10` to `>= 11`); reorder two statements that are truly independent; replace a magic number by a named constant with the same value; use a named result; replace Lock/Unlock pairs by Lock + defer Unlock where the critical section is the rest of the function; use min/max builtins; wrap an error with the same value semantics... Do NOT change behaviour in any corner case (error values and messages, which buffer is released when, which lock is held when, ordering of writes, what is logged may change only by adding nothing). Do not edit tests. Each refactoring must stand alone (apply to the unmodified tree by itself), keep `go build ./...` and `go vet ./...`-cleanliness as before, and keep the existing tests passing:  go test -vet=off -count=1 ./...   (Test_ReuseConnTransport is known to be flaky; ignore it).
+TASK: find the non-test code that makes this property true (read it end to end), then write FIVE independent, small, BEHAVIOUR-PRESERVING refactorings of that code — the kind of clean-up a maintainer would merge without hesitation and that changes nothing observable, on any input, error path or interleaving. Each must touch the code that the property depends on (not unrelated files), and each must be a DIFFERENT kind of edit, for example: rename a local variable, parameter, receiver or unexported field; introduce or inline a local variable; extract a few statements into an unexported helper function/method, or inline a small helper at its call site; turn if/else into early return (or back), a chain of ifs into a switch, `for i := 0; i < n; i++` into `for i := range`, an index loop into a range loop where equivalent; flip a comparison (`a < b` to `b > a`, `!(x == y)` to `x != y`, `> 10` to `>= 11`); reorder two statements that are truly independent; replace a magic number by a named constant with the same value; use a named result; replace Lock/Unlock pairs by Lock + defer Unlock where the critical section is the rest of the function; use min/max builtins; wrap an error with the same value semantics... {G} Do NOT change behaviour in any corner case (error values and messages, which buffer is released when, which lock is held when, ordering of writes, what is logged may change only by adding nothing). Do not edit tests. Each refactoring must stand alone (apply to the unmodified tree by itself), keep `go build ./...` and `go vet ./...`-cleanliness as before, and keep the existing tests passing:  go test -vet=off -count=1 ./...   (Test_ReuseConnTransport is known to be flaky; ignore it).
 
 DELIVERABLES in /tmp/mut/{sid}/_out/ (create it):
   n1.diff … n5.diff — each the `git diff` of ONE refactoring alone, applicable with `git apply` from the repository root to the unmodified tree
